@@ -24,7 +24,7 @@ for l in open('/verif/properties.jsonl'):
         if int(R)>=5:
             t+="\nFurther guidance for round 5: every idea listed above was detected in the end. Look where nobody has looked yet. Good hunting grounds: (1) files other than the ones named under 'Mainly implemented in' that the property nevertheless depends on (the adapter crates signal-hook-mio / signal-hook-tokio / signal-hook-async-std, src/low_level/mod.rs, src/lib.rs, build.rs, Cargo features); (2) behaviour that differs only for particular signal numbers (real-time signals 34..64, SIGCHLD, SIGPIPE, SIGCONT/SIGTSTP), particular descriptor kinds, particular exfiltrators, particular sa_flags or masks; (3) the second and later uses of an object (second registration of the same thing, second instance over the same signals, re-use after close, re-use after an error), several instances/handles at once, or objects moved to and used from another thread; (4) resource accounting over many repetitions (something that is correct 5 times and wrong the 6th or the 65536th: counters wrapping, tables filling up, ids colliding); (5) memory-ordering or atomicity downgrades that are invisible on x86-64 hardware but wrong under the Rust/C11 memory model (say so clearly in meta.md and demonstrate with the best means you have). The demonstration may use `RUSTFLAGS=\"--cfg sighook_verif\"` and the hook table in signal_hook_registry::verif_shim if that helps to force an interleaving or a weak-memory outcome.\n"
         if int(R)>=6:
-            t+="\nFurther guidance for round 6: five rounds of changes have been made for this property already (listed above) Find something genuinely new, for example: a dependency between TWO DIFFERENT properties' code (a change in code serving another feature that silently breaks this property's promise); behaviour that depends on the ORDER or NUMBER of prior operations in a way a short random history rarely produces (exactly N registrations, the Nth re-use, wrap-around of a counter or generation, a table becoming full); platform facts (sigaction flag combinations, signal masks inherited by threads, alternate signal stacks, errno preservation across the handler, EINTR/EAGAIN handling, O_NONBLOCK shared between dup'ed descriptors, fork); integer conversions (c_int vs usize vs u8 indices) on rarely used ranges; Drop order / panic-safety subtleties (a guard dropped at the wrong moment only when unwinding); or API misuse that the documentation explicitly allows (re-registering the same Arc, the same pipe for two signals, registering from inside an action is forbidden - but unregistering another id from a normal thread while its action runs is fine). Prefer changes whose demonstration needs at least THREE ingredients at once.\n"
+            t+="\nFurther guidance for round 6 and later: many changes have been made for this property already (listed above). Find something genuinely new, for example: a dependency between TWO DIFFERENT properties' code (a change in code serving another feature that silently breaks this property's promise); behaviour that depends on the ORDER or NUMBER of prior operations in a way a short random history rarely produces (exactly N registrations, the Nth re-use, wrap-around of a counter or generation, a table becoming full); platform facts (sigaction flag combinations, signal masks inherited by threads, alternate signal stacks, errno preservation across the handler, EINTR/EAGAIN handling, O_NONBLOCK shared between dup'ed descriptors, fork); integer conversions (c_int vs usize vs u8 indices) on rarely used ranges; Drop order / panic-safety subtleties (a guard dropped at the wrong moment only when unwinding); or API misuse that the documentation explicitly allows (re-registering the same Arc, the same pipe for two signals, registering from inside an action is forbidden - but unregistering another id from a normal thread while its action runs is fine). Prefer changes whose demonstration needs at least THREE ingredients at once.\n"
         open(O+'/prompt.txt','w').write(t)
 PY
 done
